@@ -7,10 +7,13 @@ finite-state automata used here), helpers (`_write_or_rollback`, `_study_is_immu
 Layer 1 -- one run of the transaction automaton per `SQLDataStore` method (all methods except `__init__`):
 
   C05.<method>.bracket        public method: every exit (return or exception) is reached with no pending write
-                              (each write is followed by a commit, or by a rollback before an exceptional exit) and
-                              no commit lies between two writes of the method (all-or-nothing).
-                              private helper (started with the lock held and a pending write of its caller):
-                              every exceptional exit has rolled back, and the helper never commits.
+                              (each write is followed by a commit, or by a rollback before an exceptional exit), no
+                              commit lies between two writes of the method (all-or-nothing), and no commit follows a
+                              failed write while an earlier write of the method is pending (partial transaction).
+                              private helper (analysed with the lock held, a pending write of its caller and the
+                              statement classes of its call sites): if it contains a rollback (`_write_or_rollback`)
+                              every exceptional exit has rolled back; other helpers leave transaction control to
+                              their callers, which inline the helper's real body.
   C05.<method>.single_commit  at most one commit on every path.
   C05.<method>.lock           every access to `self._connection` (also inside inlined helpers) is inside
                               `with self._lock`; for a private helper: every call site holds the lock.
@@ -88,6 +91,8 @@ class KindFlow:
     """Forward data flow over a method: class (read/write/...) of every expression handed to a call, at that call."""
 
     def __init__(self, mod, cls):
+        self.methods = {k: v for k, v in cls.methods.items() if isinstance(v, ast.FunctionDef)}
+        self.depth = 0
         self.sqla = {n for n, t in mod.imports.items() if t == 'sqlalchemy'}
         self.direct = {n: t.split('.')[-1] for n, t in mod.imports.items() if t.startswith('sqlalchemy.') and t.count('.') == 1}
         self.tables = set()
@@ -129,6 +134,8 @@ class KindFlow:
             f = e.func
             if isinstance(f, ast.Name):
                 return self._builder(self.direct[f.id], e) if f.id in self.direct else UNKNOWN
+            if is_self_attr(f) and f.attr in self.methods and self.depth < 4:
+                return self._returned_kind(self.methods[f.attr], e, env)
             if isinstance(f, ast.Attribute):
                 m, r = f.attr, f.value
                 if self._is_sqla(r):
@@ -150,6 +157,24 @@ class KindFlow:
         if isinstance(e, (ast.Compare, ast.BoolOp, ast.BinOp, ast.UnaryOp, ast.Constant)):
             return EXPR
         return UNKNOWN
+
+    def _returned_kind(self, callee, call, env):
+        """`self.m(args)` used as a statement: join of the classes of the expressions `m` returns."""
+        params = [a.arg for a in callee.args.args[1:]]
+        penv = {p: UNKNOWN for p in params}
+        for p, a in zip(params, call.args):
+            penv[p] = self.kind(a, env)
+        for k in call.keywords:
+            if k.arg in penv:
+                penv[k.arg] = self.kind(k.value, env)
+        sub = KindFlow.__new__(KindFlow)
+        sub.__dict__.update(self.__dict__)
+        sub.depth = self.depth + 1
+        sub.returns = []
+        sub.at = {}
+        sub._block(callee.body, penv)
+        ks = set(sub.returns)
+        return next(iter(ks)) if len(ks) == 1 else UNKNOWN
 
     # ---- data flow
     def analyse(self, fn, param_kinds=None):
@@ -242,6 +267,10 @@ class KindFlow:
             self._block(s.finalbody, env)
         elif isinstance(s, (ast.FunctionDef, ast.ClassDef, ast.AsyncFunctionDef)):
             env[s.name] = UNKNOWN
+        elif isinstance(s, ast.Return):
+            self._record([s.value], env)
+            if getattr(self, 'returns', None) is not None and s.value is not None:
+                self.returns.append(self.kind(s.value, env))
         else:
             self._record([c for c in ast.iter_child_nodes(s) if isinstance(c, ast.expr)], env)
 
@@ -356,7 +385,7 @@ def build_hierarchy():
 
 
 # =========================================================================================== layer 1: SQL methods
-S1 = namedtuple('S1', 'locked pending caw commits wrote rolled bad')
+S1 = namedtuple('S1', 'locked pending caw commits wrote rolled tainted bad')
 
 
 class SqlClient(paths.Client):
@@ -369,7 +398,7 @@ class SqlClient(paths.Client):
         self.lock_is_plain = None
 
     def init_state(self):
-        return S1(0, False, False, 0, False, False, frozenset())
+        return S1(0, False, False, 0, False, False, False, frozenset())
 
     # ---- automaton
     def step(self, a, ev, consts, fr):
@@ -379,20 +408,27 @@ class SqlClient(paths.Client):
         if k == 'rel':
             return a._replace(locked=max(a.locked - 1, 0))
         if k == 'conn':
-            return a if a.locked else a._replace(bad=a.bad | {'unlocked_access'})
+            if a.locked:
+                return a
+            tags = {'unlocked_access'} | ({'unlocked_in_helper:' + fr.fn.name} if fr.depth > 0 else set())
+            return a._replace(bad=a.bad | tags)
         if k == 'helper_call':
-            return a if a.locked else a._replace(bad=a.bad | {'unlocked_helper_call:' + ev.data[0]})
+            return a
         if k == 'read':
             return a
         if k == 'write':
             bad = a.bad | {'commit_between_writes'} if a.caw else a.bad
             return a._replace(pending=True, wrote=True, bad=bad)
         if k == 'write_failed':
-            return a._replace(bad=a.bad | {'commit_between_writes'}) if a.caw else a
+            # the failed statement itself has no effect; but if an earlier write of this method is pending, the
+            # transaction is now a partial one ("tainted") until it is rolled back
+            bad = a.bad | {'commit_between_writes'} if a.caw else a.bad
+            return a._replace(bad=bad, tainted=a.tainted or a.pending)
         if k == 'commit':
-            return a._replace(commits=min(a.commits + 1, 2), caw=a.caw or a.pending, pending=False)
+            bad = a.bad | {'commit_after_failed_write'} if (a.tainted and a.pending) else a.bad
+            return a._replace(commits=min(a.commits + 1, 2), caw=a.caw or a.pending, pending=False, tainted=False, bad=bad)
         if k == 'rollback':
-            return a._replace(pending=False, rolled=True)
+            return a._replace(pending=False, rolled=True, tainted=False)
         if k == 'undecided':
             return a._replace(bad=a.bad | {'undecided:' + ev.data[0]})
         return a
@@ -459,11 +495,33 @@ class SqlClient(paths.Client):
 
     def kf_clone(self):
         k = KindFlow.__new__(KindFlow)
-        k.sqla, k.direct, k.tables = self.kf.sqla, self.kf.direct, self.kf.tables
+        k.__dict__.update(self.kf.__dict__)
+        k.returns = None
         return k
 
     def unknown_call(self, node, fr):
         self.unknown.setdefault(fr.data.get('top') or fr.qualname, set()).add(paths._short(node.func, 60))
+
+
+def helper_param_kinds(client, cls, hname, hfn):
+    """Statement class of each parameter of a private helper = join over all call sites `self.<helper>(..)` in the class."""
+    params = [a.arg for a in hfn.args.args[1:]]
+    seen = {p: set() for p in params}
+    for mname, fn in cls.methods.items():
+        if not isinstance(fn, ast.FunctionDef) or mname == hname:
+            continue
+        at = None
+        for n in ast.walk(fn):
+            if isinstance(n, ast.Call) and is_self_attr(n.func) and n.func.attr == hname:
+                if at is None:
+                    at = client.kf_clone().analyse(fn, {})
+                pos, kw = at.get(id(n), ([], {}))
+                for p, k in zip(params, pos):
+                    seen[p].add(k)
+                for p, k in kw.items():
+                    if p in seen:
+                        seen[p].add(k)
+    return {p: (next(iter(ks)) if len(ks) == 1 and UNKNOWN not in ks else PARAM) for p, ks in seen.items()}
 
 
 def sql_violations(name, outs, helper):
@@ -474,20 +532,24 @@ def sql_violations(name, outs, helper):
         s = o.state
         tags = {'bracket': [], 'single_commit': [], 'lock': []}
         if helper:
-            if o.kind == paths.RAISE and s.pending:
+            # a helper that rolls back somewhere promises "an exception leaves nothing pending"; a helper without any
+            # rollback leaves transaction control to its callers (which inline its body), so nothing is demanded here.
+            if helper == 'rolls_back' and o.kind == paths.RAISE and s.pending:
                 tags['bracket'].append('helper_raises_without_rollback')
-            if s.commits:
-                tags['bracket'].append('helper_commits')
         else:
             if s.pending:
                 tags['bracket'].append('pending_at_exit')
         if 'commit_between_writes' in s.bad:
             tags['bracket'].append('commit_between_writes')
+        if 'commit_after_failed_write' in s.bad:
+            tags['bracket'].append('commit_after_failed_write')
         if s.commits >= 2:
             tags['single_commit'].append('multiple_commits')
         for b in s.bad:
-            if b == 'unlocked_access' or b.startswith('unlocked_helper_call:'):
+            if b == 'unlocked_access':
                 tags['lock'].append(b)
+            elif b.startswith('unlocked_in_helper:'):
+                pass
             elif b.startswith('undecided:'):
                 for c in ('bracket', 'single_commit'):
                     und[c].append(b[len('undecided:'):])
@@ -656,9 +718,12 @@ def confirm_sql_dynamic(method, tag, o):
         return None, {'driver_error': msg}
     hits = []
     for s in doc.get('scenarios', []):
-        if tag == 'pending_at_exit' and s['pending_at_exit'] and (s['exit'] == ('raise' if o.kind == paths.RAISE else 'return')):
+        if (tag == 'pending_at_exit' and (s['pending_at_exit'] or s['automaton_dirty_at_exit'])
+                and (s['exit'] == ('raise' if o.kind == paths.RAISE else 'return'))):
             hits.append(s)
         elif tag == 'commit_between_writes' and s['commit_between_writes']:
+            hits.append(s)
+        elif tag == 'commit_after_failed_write' and s.get('commit_after_failed_write'):
             hits.append(s)
         elif tag == 'multiple_commits' and s['commits'] >= 2:
             hits.append(s)
@@ -672,6 +737,7 @@ def confirm_sql_dynamic(method, tag, o):
     return True, {'driver': '%s %s bracket --method %s' % (VENV_PY, DRIVER, method), 'scenario': s['scenario'],
                   'observed_exit': s['exit'], 'observed_exception': s['exception'], 'observed_sql_trace': [t['ev'] for t in s['trace']],
                   'pending_writes_at_exit_seen_from_second_connection': s['pending_at_exit'],
+                  'write_without_commit_or_rollback_in_the_run_time_sql_trace': s['automaton_dirty_at_exit'],
                   'commit_between_writes': s['commit_between_writes'], 'commits': s['commits'], 'unlocked_access': s['unlocked_access']}
 
 
@@ -730,6 +796,7 @@ def main(tier):
     sql_client = SqlClient(sql_mod, sql_cls, kf, RaiseResolver(sql_mod), hierarchy)
     l1 = {}
     helper_call_sites = {}
+    helper_envs = {}
     sql_results = {}
     for name, fn in sql_cls.methods.items():
         if not isinstance(fn, ast.FunctionDef) or (name.startswith('__') and name.endswith('__')):
@@ -737,12 +804,21 @@ def main(tier):
         helper = name.startswith('_')
         chk.function(SQL_MOD, '%s.%s' % (SQL_CLASS, name))
         t0 = time.time()
+        if helper:
+            helper = 'rolls_back' if (name == '_write_or_rollback' or any(
+                isinstance(n, ast.Call) and isinstance(n.func, ast.Attribute) and n.func.attr == 'rollback' and is_self_attr(n.func.value, '_connection')
+                for n in ast.walk(fn))) else 'plain'
         try:
-            penv = {a.arg: PARAM for a in fn.args.args[1:]} if helper else {}
+            penv = helper_param_kinds(sql_client, sql_cls, name, fn) if helper else {}
+            helper_envs[name] = penv
             data = {'kinds': sql_client.kf_clone().analyse(fn, penv), 'top': name}
-            init = S1(1, True, False, 0, False, False, frozenset()) if helper else None
+            init = S1(1, True, False, 0, False, False, False, frozenset()) if helper else None
             outs = paths.Engine(sql_client).run(fn, '%s.%s' % (SQL_CLASS, name), data, init)
             sql_results[name] = (outs, None, time.time() - t0, helper)
+            for o in outs:
+                for b in o.state.bad:
+                    if b.startswith('unlocked_in_helper:'):
+                        helper_call_sites.setdefault(b.split(':', 1)[1], []).append((name, o))
         except paths.Unsupported as e:
             sql_results[name] = (None, str(e), time.time() - t0, helper)
 
@@ -753,15 +829,15 @@ def main(tier):
                 chk.obligation('C05.%s.%s' % (name, clause), fq, 'paths', report.UNDECIDED, dt, detail='unsupported: ' + err)
             continue
         v, und = sql_violations(name, outs, helper)
-        for o in outs:
-            for b in o.state.bad:
-                if b.startswith('unlocked_helper_call:'):
-                    helper_call_sites.setdefault(b.split(':', 1)[1], []).append((name, o))
+        if helper:      # a call site without the lock violates the helper's lock obligation as well
+            v['lock'] += [('called_without_lock_from:' + caller, o) for caller, o in helper_call_sites.get(name, [])]
         npaths = sum(o.n for o in outs)
         detail = {'paths': npaths, 'abstract_outcomes': len(outs), 'exits': exits_summary(outs),
                   'unknown_calls': sorted(sql_client.unknown.get(name, ()))}
         if helper:
-            detail['helper_contract'] = 'analysed with the lock held and a pending write of the caller; callers inline this body'
+            detail['helper_contract'] = ('analysed with the lock held, a pending write of the caller and the statement classes of its call sites %s; '
+                                         'callers inline this body. %s' % (helper_envs.get(name), 'Contract: every exceptional exit has rolled back.' if helper == 'rolls_back'
+                                                                           else 'No rollback inside: transaction control is left to the callers.'))
         bracket_proved = False
         for clause in ('bracket', 'single_commit', 'lock'):
             oname = 'C05.%s.%s' % (name, clause)
@@ -807,17 +883,6 @@ def main(tier):
                     'raises': sorted({o.exc for o in outs if o.kind == paths.RAISE}),
                     'clean_on_raise': bracket_proved}
 
-    # helper .lock obligations get the call-site verdicts (a call without the lock is a violation of the helper's obligation too)
-    for hname, sites in helper_call_sites.items():
-        for o in chk.obligations:
-            if o['obligation'] == 'C05.%s.lock' % hname and o['result'] == report.PROVED:
-                o['result'] = report.UNDECIDED   # replaced below
-                chk.obligations.remove(o)
-                caller, out = sites[0]
-                chk.obligation('C05.%s.lock' % hname, '%s.%s' % (SQL_CLASS, hname), 'paths', report.VIOLATED, 0.0,
-                               detail='called without self._lock from %s' % sorted({c for c, _ in sites}),
-                               model=describe(out, 'unlocked_helper_call'), reproduced=None)
-                break
     if sql_client.summaries_used:
         chk.note('callee raise summaries derived from source: %s.' % json.dumps(sql_client.summaries_used, sort_keys=True))
 
@@ -845,7 +910,7 @@ def main(tier):
                   'unknown_calls': sorted(rpc_client.unknown.get(rpc, ()))}
 
         def decide(oname, bad_outs, tag, confirm=None, n_parts=1):
-            definite = [o for o in bad_outs if not o.approx]
+            definite = sorted([o for o in bad_outs if not o.approx], key=lambda o: (o.kind != paths.RETURN, len(paths.trace_list(o.trace))))
             if und and not definite:
                 chk.obligation(oname, fq, 'paths', report.UNDECIDED, dt / n_parts, detail='; '.join(und)[:600])
             elif not bad_outs:
@@ -864,7 +929,7 @@ def main(tier):
                    confirm=lambda rpc=rpc: confirm_rpc_crash(rpc), n_parts=2)
             decide('C05.%s.acked_is_durable' % rpc, durable_bad, 'object modified after it was written and returned without being written again', n_parts=2)
         elif rpc == 'SuggestTrials':
-            opened = [o for o in outs if o.state.opened >= 1]
+            opened = sorted([o for o in outs if o.state.opened >= 1], key=lambda o: (o.kind != paths.RETURN, len(paths.trace_list(o.trace))))
             oname = 'C05.SuggestTrials.usable_after_crash'
             if not opened:
                 decide(oname, [], '', n_parts=6)
